@@ -10,6 +10,7 @@ import (
 	"bytes"
 	"flag"
 	"fmt"
+	"io"
 	"testing"
 
 	"github.com/cloudflare/circl/kem"
@@ -73,6 +74,7 @@ type impl struct {
 	sch      kem.Scheme
 	mlkem    bool
 	newKey   func(seed []byte) (pubKey, privKey)
+	genKey   func(r io.Reader) (pubKey, privKey, error) // typed GenerateKeyPair
 	unpackPK func(...[]byte) (pubKey, error) // direct PublicKey.Unpack of each argument in turn into the same object
 	unpackSK func(...[]byte) (privKey, error)
 }
@@ -81,26 +83,32 @@ func impls() []impl {
 	return []impl{
 		{name: "ML-KEM-512", ref: mlkem.Get(2, false), sch: mlkem512.Scheme(), mlkem: true,
 			newKey:   func(s []byte) (pubKey, privKey) { a, b := mlkem512.NewKeyFromSeed(s); return a, b },
+			genKey:   func(r io.Reader) (pubKey, privKey, error) { a, b, err := mlkem512.GenerateKeyPair(r); if err != nil { return nil, nil, err }; return a, b, nil },
 			unpackPK: func(bs ...[]byte) (pubKey, error) { var k mlkem512.PublicKey; var err error; for _, b := range bs { err = k.Unpack(b) }; return &k, err },
 			unpackSK: func(bs ...[]byte) (privKey, error) { var k mlkem512.PrivateKey; var err error; for _, b := range bs { err = k.Unpack(b) }; return &k, err }},
 		{name: "ML-KEM-768", ref: mlkem.Get(3, false), sch: mlkem768.Scheme(), mlkem: true,
 			newKey:   func(s []byte) (pubKey, privKey) { a, b := mlkem768.NewKeyFromSeed(s); return a, b },
+			genKey:   func(r io.Reader) (pubKey, privKey, error) { a, b, err := mlkem768.GenerateKeyPair(r); if err != nil { return nil, nil, err }; return a, b, nil },
 			unpackPK: func(bs ...[]byte) (pubKey, error) { var k mlkem768.PublicKey; var err error; for _, b := range bs { err = k.Unpack(b) }; return &k, err },
 			unpackSK: func(bs ...[]byte) (privKey, error) { var k mlkem768.PrivateKey; var err error; for _, b := range bs { err = k.Unpack(b) }; return &k, err }},
 		{name: "ML-KEM-1024", ref: mlkem.Get(4, false), sch: mlkem1024.Scheme(), mlkem: true,
 			newKey:   func(s []byte) (pubKey, privKey) { a, b := mlkem1024.NewKeyFromSeed(s); return a, b },
+			genKey:   func(r io.Reader) (pubKey, privKey, error) { a, b, err := mlkem1024.GenerateKeyPair(r); if err != nil { return nil, nil, err }; return a, b, nil },
 			unpackPK: func(bs ...[]byte) (pubKey, error) { var k mlkem1024.PublicKey; var err error; for _, b := range bs { err = k.Unpack(b) }; return &k, err },
 			unpackSK: func(bs ...[]byte) (privKey, error) { var k mlkem1024.PrivateKey; var err error; for _, b := range bs { err = k.Unpack(b) }; return &k, err }},
 		{name: "Kyber512", ref: mlkem.Get(2, true), sch: kyber512.Scheme(),
 			newKey:   func(s []byte) (pubKey, privKey) { a, b := kyber512.NewKeyFromSeed(s); return a, b },
+			genKey:   func(r io.Reader) (pubKey, privKey, error) { a, b, err := kyber512.GenerateKeyPair(r); if err != nil { return nil, nil, err }; return a, b, nil },
 			unpackPK: func(bs ...[]byte) (pubKey, error) { var k kyber512.PublicKey; for _, b := range bs { k.Unpack(b) }; return &k, nil },
 			unpackSK: func(bs ...[]byte) (privKey, error) { var k kyber512.PrivateKey; for _, b := range bs { k.Unpack(b) }; return &k, nil }},
 		{name: "Kyber768", ref: mlkem.Get(3, true), sch: kyber768.Scheme(),
 			newKey:   func(s []byte) (pubKey, privKey) { a, b := kyber768.NewKeyFromSeed(s); return a, b },
+			genKey:   func(r io.Reader) (pubKey, privKey, error) { a, b, err := kyber768.GenerateKeyPair(r); if err != nil { return nil, nil, err }; return a, b, nil },
 			unpackPK: func(bs ...[]byte) (pubKey, error) { var k kyber768.PublicKey; for _, b := range bs { k.Unpack(b) }; return &k, nil },
 			unpackSK: func(bs ...[]byte) (privKey, error) { var k kyber768.PrivateKey; for _, b := range bs { k.Unpack(b) }; return &k, nil }},
 		{name: "Kyber1024", ref: mlkem.Get(4, true), sch: kyber1024.Scheme(),
 			newKey:   func(s []byte) (pubKey, privKey) { a, b := kyber1024.NewKeyFromSeed(s); return a, b },
+			genKey:   func(r io.Reader) (pubKey, privKey, error) { a, b, err := kyber1024.GenerateKeyPair(r); if err != nil { return nil, nil, err }; return a, b, nil },
 			unpackPK: func(bs ...[]byte) (pubKey, error) { var k kyber1024.PublicKey; for _, b := range bs { k.Unpack(b) }; return &k, nil },
 			unpackSK: func(bs ...[]byte) (privKey, error) { var k kyber1024.PrivateKey; for _, b := range bs { k.Unpack(b) }; return &k, nil }},
 	}
@@ -402,6 +410,52 @@ func kemCase(t *rapid.T, im impl) {
 		return
 	}
 
+	// --- GenerateKeyPair(reader): the 64 bytes may arrive in pieces
+	if rapid.IntRange(0, 2).Draw(t, "viaReader") == 0 {
+		mode := rapid.SampledFrom([]string{"whole", "chunked", "chunked", "one-byte", "short"}).Draw(t, "reader")
+		rd := &chunkReader{data: append([]byte{}, seed...), chunk: 64}
+		have := 64
+		switch mode {
+		case "chunked":
+			rd.chunk = rapid.IntRange(2, 63).Draw(t, "chunk")
+		case "one-byte":
+			rd.chunk = 1
+		case "short":
+			have = rapid.IntRange(0, 63).Draw(t, "have")
+			rd.data = rd.data[:have]
+			rd.chunk = rapid.IntRange(1, 64).Draw(t, "chunk")
+		}
+		var gpk pubKey
+		var gsk privKey
+		var gerr error
+		if !catchRep(t, "C03/panic/"+im.name+"/GenerateKeyPair", fmt.Sprintf("seed %x reader %s/%d", seed, mode, rd.chunk), func() {
+			gpk, gsk, gerr = im.genKey(rd)
+		}) {
+			return
+		}
+		vlib.Class(sub, "GenerateKeyPair-reader="+mode)
+		if mode == "short" {
+			if gerr == nil {
+				vlib.Report(t, "C03/keygen/"+im.name+"/GenerateKeyPair-short-reader", fmt.Sprintf("reader delivering only %d of 64 bytes (then EOF): GenerateKeyPair returned a key and no error", have))
+				return
+			}
+		} else {
+			if gerr != nil {
+				vlib.Report(t, "C03/keygen/"+im.name+"/GenerateKeyPair-reader", fmt.Sprintf("seed %x, reader delivering %d bytes per Read: error %v", seed, rd.chunk, gerr))
+				return
+			}
+			gek := make([]byte, p.EkSize())
+			gdk := make([]byte, p.DkSize())
+			gpk.Pack(gek)
+			gsk.Pack(gdk)
+			if !bytes.Equal(gek, wantEk) || !bytes.Equal(gdk, wantDk) {
+				vlib.Report(t, "C03/keygen/"+im.name+"/GenerateKeyPair-reader", fmt.Sprintf("seed %x, reader delivering %d bytes per Read: the key is not KeyGen(d,z) of the 64 bytes delivered (ek equal=%v, dk equal=%v, first differing dk byte %d)", seed, rd.chunk, bytes.Equal(gek, wantEk), bytes.Equal(gdk, wantDk), firstDiff(gdk, wantDk)))
+				return
+			}
+			vlib.NonTrivial(sub, "GenerateKeyPair-from-reader", seed, []byte(mode), []byte{byte(rd.chunk)})
+		}
+	}
+
 	// --- encapsulation, with the generated key object and with a key parsed from bytes
 	wantK, wantC := p.Encaps(wantEk, m)
 	var ct, ss []byte
@@ -481,6 +535,28 @@ func kemCase(t *rapid.T, im impl) {
 			vlib.Sample(sub, "ct="+cd.kind, fmt.Sprintf("%s seed=%x m=%x ct: %s -> K=%x (%s)", im.name, seed, m, cd.desc, want, cls))
 		}
 	}
+}
+
+// chunkReader delivers data in pieces of at most chunk bytes, then io.EOF.
+type chunkReader struct {
+	data  []byte
+	chunk int
+}
+
+func (r *chunkReader) Read(p []byte) (int, error) {
+	if len(r.data) == 0 {
+		return 0, io.EOF
+	}
+	n := r.chunk
+	if n > len(p) {
+		n = len(p)
+	}
+	if n > len(r.data) {
+		n = len(r.data)
+	}
+	copy(p, r.data[:n])
+	r.data = r.data[n:]
+	return n, nil
 }
 
 func firstDiff(a, b []byte) int {
@@ -798,7 +874,7 @@ func parseCase(t *rapid.T, im impl) {
 
 	kind := rapid.SampledFrom([]string{"ek-coef>=q", "ek-coef>=q", "ek-coef>=q", "ek-bitflip", "ek-random", "ek-length", "ek-wellformed-edge",
 		"dk-h-corrupt", "dk-h-corrupt", "dk-ek-corrupt", "dk-bitflip-any", "dk-pke-or-z-mutated", "dk-ek-unreduced-hash-fixed", "dk-length",
-		"ek-rho-edge", "ek-rho-edge", "dk-rho-edge", "dk-rho-edge"}).Draw(t, "kind")
+		"ek-rho-edge", "ek-rho-edge", "dk-rho-edge", "dk-rho-edge", "ek-lifted", "ek-lifted", "dk-ek-lifted"}).Draw(t, "kind")
 	vlib.Class(sub, "kind="+kind)
 	rhoDesc := ""
 	if kind == "ek-rho-edge" || kind == "dk-rho-edge" {
@@ -813,14 +889,17 @@ func parseCase(t *rapid.T, im impl) {
 	honestEk, honestDk := p.KeyGen(seed[:32], seed[32:])
 
 	switch kind {
-	case "ek-coef>=q", "ek-bitflip", "ek-random", "ek-length", "ek-wellformed-edge", "ek-rho-edge":
+	case "ek-coef>=q", "ek-bitflip", "ek-random", "ek-length", "ek-wellformed-edge", "ek-rho-edge", "ek-lifted":
 		b := append([]byte{}, ek...)
 		desc := kind + rhoDesc
 		switch kind {
 		case "ek-coef>=q":
 			n := rapid.SampledFrom([]int{1, 1, 1, 2, 5}).Draw(t, "ncoef")
 			for i := 0; i < n; i++ {
-				idx := rapid.IntRange(0, 256*k-1).Draw(t, "idx")
+				idx := rapid.SampledFrom([]int{0, 1, 255, 256, 256*k - 256, 256*k - 2, 256*k - 1, -1, -1, -1}).Draw(t, "idxEdge")
+				if idx < 0 {
+					idx = rapid.IntRange(0, 256*k-1).Draw(t, "idx")
+				}
 				v := rapid.SampledFrom([]int{mlkem.Q, mlkem.Q + 1, 4095, 4094, 3584, 2048 + 1281, -1}).Draw(t, "val")
 				if v < 0 {
 					v = rapid.IntRange(mlkem.Q, 4095).Draw(t, "rval")
@@ -829,6 +908,9 @@ func parseCase(t *rapid.T, im impl) {
 				desc += fmt.Sprintf(" [%d]=%d", idx, v)
 				vlib.Class(sub, fmt.Sprintf("bad-coef-parity=%d", idx%2))
 			}
+		case "ek-lifted":
+			// same key modulo q, but 1 .. all coefficients encoded as c+q (round-3 Kyber accepts this)
+			desc += fmt.Sprintf(" lifted=%d", liftCoefficients(t, b[:384*k]))
 		case "ek-bitflip":
 			i := rapid.IntRange(0, 8*len(b)-1).Draw(t, "bit")
 			b[i/8] ^= 1 << uint(i%8)
@@ -870,8 +952,11 @@ func parseCase(t *rapid.T, im impl) {
 			vlib.Report(t, "C03/parse/"+im.name+"/ek-refused", fmt.Sprintf("seed %x %s: round-3 Kyber has no key checks but parsing failed", seed, desc))
 			return
 		}
-		if want && okS {
-			if !bytes.Equal(re, b) {
+		// round-3 Kyber has no modulus check: Encaps is defined for every right-length byte string
+		// (H over the bytes as received, t decoded and used modulo q)
+		specDefined := want || (!im.mlkem && len(b) == p.EkSize())
+		if specDefined && okS {
+			if want && !bytes.Equal(re, b) {
 				vlib.Report(t, "C03/parse/"+im.name+"/ek-reencode", fmt.Sprintf("seed %x %s: accepted well-formed ek re-encodes differently", seed, desc))
 				return
 			}
@@ -894,7 +979,9 @@ func parseCase(t *rapid.T, im impl) {
 				return
 			}
 			vlib.Class(sub, "ek-accepted")
-			if kind != "ek-bitflip" || !bytes.Equal(b[:384*k], ek[:384*k]) {
+			if !want {
+				vlib.NonTrivial(sub, "kyber-ek-unreduced-encaps", b, m)
+			} else if kind != "ek-bitflip" || !bytes.Equal(b[:384*k], ek[:384*k]) {
 				vlib.NonTrivial(sub, "ek-wellformed-variant", b)
 			}
 		}
@@ -935,6 +1022,10 @@ func parseCase(t *rapid.T, im impl) {
 				setCoef(b, idx, v)
 				desc += fmt.Sprintf(" s^[%d]=%d", idx, v)
 			}
+		case "dk-ek-lifted":
+			// embedded ek re-encoded with unreduced coefficients, stored hash untouched:
+			// ML-KEM must refuse (hash check), round-3 Kyber uses the stored hash
+			desc += fmt.Sprintf(" lifted=%d", liftCoefficients(t, b[384*k:768*k]))
 		case "dk-ek-unreduced-hash-fixed":
 			// embedded ek with unreduced coefficients and a matching hash: FIPS 203 §7.3 has
 			// only a length and a hash check, so this key is acceptable to Decaps
